@@ -334,6 +334,52 @@ def replay_path(run, h, g, path, full_crash):
     return ok
 
 
+def own_identity_first_open(r, work):
+    """Own identity and registration id: whatever an opener of the store handed out is what every later open reads back - also when a
+    second opener (another process / thread of the same account) initialises the brand-new store while the first one is between its
+    'nothing stored yet' read and its write.  The late writer may fail, it must not silently replace what the other one already uses."""
+    from yowsup.axolotl.store.sqlite.liteaxolotlstore import LiteAxolotlStore
+    import yowsup.axolotl.store.sqlite.liteidentitykeystore as lik
+    for nested in (False, True):
+        db = os.path.join(work, "first_open_%d.db" % nested)
+        r.case(("own-identity", nested))
+        handed = []
+        orig = lik.KeyHelper.generateIdentityKeyPair
+        state = {"depth": 0}
+
+        def gen(orig=orig):
+            state["depth"] += 1
+            try:
+                if nested and state["depth"] == 1:
+                    # the other opener runs to completion right here
+                    st2 = LiteAxolotlStore(db)
+                    handed.append(("second", bytes(st2.getIdentityKeyPair().getPublicKey().serialize()), st2.getLocalRegistrationId()))
+                return orig()
+            finally:
+                state["depth"] -= 1
+        lik.KeyHelper.generateIdentityKeyPair = staticmethod(gen)
+        try:
+            try:
+                st1 = LiteAxolotlStore(db)
+                handed.append(("first", bytes(st1.getIdentityKeyPair().getPublicKey().serialize()), st1.getLocalRegistrationId()))
+            except Exception as e:
+                handed.append(("first-failed", type(e).__name__, None))
+        finally:
+            lik.KeyHelper.generateIdentityKeyPair = orig
+        try:
+            st3 = LiteAxolotlStore(db)
+            now = (bytes(st3.getIdentityKeyPair().getPublicKey().serialize()), st3.getLocalRegistrationId())
+        except Exception as e:
+            r.violation("own-identity:reopen-fails", "reopening the store after its first initialisation raised %r" % (e,), {"nested": nested})
+            continue
+        for who, pub, reg in handed:
+            if who == "first-failed":
+                continue
+            if (pub, reg) != now:
+                r.violation("own-identity:replaced", "the %s opener of a brand-new store was handed identity %s.. / registration id %s, a later open reads %s.. / %s%s" % (
+                    who, pub.hex()[:12], reg, now[0].hex()[:12], now[1], " (two openers initialising concurrently)" if nested else ""), {"nested": nested, "handed": [h[0] for h in handed]})
+
+
 def run():
     r = core.Run("C13", "model_checking")
     thorough = r.tier == "thorough"
@@ -384,6 +430,7 @@ def run():
             replay_path(r, h, gp, p, full_crash=True)
             r.cov["traces_validated_against_impl"] += 1
         r.notes["spec_transitions_pk"] = len(gp.edges)
+        own_identity_first_open(r, work)
     finally:
         shutil.rmtree(work, ignore_errors=True)
     r.assumptions += core.ENV_ASSUMPTIONS[:1] + [
